@@ -29,7 +29,8 @@ func RegisterHint(hintFns ...Hint) {
 		if _, ok := registry[key]; ok {
 			log := logger.Logger()
 			log.Debug().Str("name", name).Msg("function registered multiple times")
-			return
+			// a duplicate must not drop the remaining hints of the call
+			continue
 		}
 		registry[key] = hintFn
 	}
